@@ -301,9 +301,16 @@ func createShimChannel(ctx context.Context, host, shimPath string, rewriteHost b
 	mux := http.NewServeMux()
 	openWebsocketHandler := openWebsocketWrapper(http.HandlerFunc(func(w http.ResponseWriter, r *http.Request) {
 		sessionID := fmt.Sprintf("%d", atomic.AddUint64(&sessionCount, 1))
-		targetURL := *(r.URL)
-		targetURL.Scheme = "ws"
-		targetURL.Host = host
+		// Only the path and query of the client-supplied URL are used; everything else
+		// (scheme, host, user info, opaque part) must come from the configured backend.
+		targetURL := url.URL{
+			Scheme:     "ws",
+			Host:       host,
+			Path:       r.URL.Path,
+			RawPath:    r.URL.RawPath,
+			RawQuery:   r.URL.RawQuery,
+			ForceQuery: r.URL.ForceQuery,
+		}
 		if originalHost := r.Host; rewriteHost && originalHost != "" {
 			r.Header.Set("Host", originalHost)
 		}
